@@ -5,6 +5,7 @@ import (
 	"context"
 	"encoding/json"
 	"fmt"
+	netmail "net/mail"
 	"strings"
 
 	mail "github.com/wneessen/go-mail"
@@ -19,6 +20,9 @@ import (
 
 type c06Case struct {
 	Ops []int `json:"ops"`
+	// Reuse: the caller keeps the slices the getters returned and appends to them later (after further calls on the
+	// Msg) — ordinary Go usage that must not reach into the message
+	Reuse bool `json:"reuse,omitempty"`
 }
 
 type na struct{ Name, Addr string }
@@ -186,7 +190,14 @@ func c06Exec(r *vf.Run, k c06Case) []finding {
 	ref := map[string][]na{}
 	getters := map[string]mail.AddrHeader{"From": mail.HeaderFrom, "To": mail.HeaderTo, "Cc": mail.HeaderCc, "Bcc": mail.HeaderBcc, "Reply-To": mail.HeaderReplyTo, "EnvelopeFrom": mail.HeaderEnvelopeFrom}
 	var names []string
+	var kept [][]*netmail.Address // getter results the caller holds on to
 	for _, oi := range k.Ops {
+		if k.Reuse {
+			for _, sl := range kept {
+				_ = append(sl, &netmail.Address{Name: "Intruder", Address: "intruder@hidden.example"})
+			}
+			kept = append(kept, m.GetTo(), m.GetCc(), m.GetBcc(), m.GetFrom(), m.GetAddrHeader(mail.HeaderReplyTo))
+		}
 		op := ops[oi]
 		names = append(names, op.name)
 		before := map[string][]na{}
@@ -230,6 +241,21 @@ func c06Exec(r *vf.Run, k c06Case) []finding {
 					add("getter-mismatch/"+op.name, "after %v the %s list is %v, the documented semantics give %v", names, h, l, ref[h])
 					ref[h] = l
 				}
+			}
+		}
+	}
+	if k.Reuse {
+		for _, sl := range kept {
+			_ = append(sl, &netmail.Address{Name: "Intruder", Address: "intruder@hidden.example"})
+		}
+		names = append(names, "(the caller appended to every slice an earlier getter call returned)")
+		for h, ah := range getters {
+			var l []na
+			for _, a := range m.GetAddrHeader(ah) {
+				l = append(l, na{a.Name, a.Address})
+			}
+			if !sameList(l, ref[h]) {
+				add("getter-result-aliases-message/"+h, "after %v the %s list is %v, it was %v before the caller appended to a slice a getter had returned earlier", names, h, l, ref[h])
 			}
 		}
 	}
@@ -342,7 +368,7 @@ func init() {
 		ID: "C06", Title: "recipients are exactly To+Cc+Bcc, and Bcc stays hidden",
 		Run: func(r *vf.Run) {
 			nops := len(c06Ops())
-			r.SetRule(fmt.Sprintf("ALL sequences of length 0..L over %d concrete address-setting operations (From/FromFormat/EnvelopeFrom/ReplyTo/ReplyToFormat and, for each of To/Cc/Bcc: set(list), set(list with an invalid entry), Add (non-ASCII name / duplicate / invalid), AddFormat (name with comma), IgnoreInvalid(valid, invalid, own), FromString) followed by render and send; a boring reference (header → ordered list of (name, address)) is updated by the documented semantics and resynchronised from the getters after errors and *IgnoreInvalid; oracle: envelope sender/recipients in the reference server's commit, rendered address fields parsed back by the harness' own parser, Bcc-only addresses absent from every rendered byte; distinct by operation sequence", nops))
+			r.SetRule(fmt.Sprintf("ALL sequences of length 0..L over %d concrete address-setting operations (From/FromFormat/EnvelopeFrom/ReplyTo/ReplyToFormat and, for each of To/Cc/Bcc: set(list), set(list with an invalid entry), Add (non-ASCII name / duplicate / invalid), AddFormat (name with comma), IgnoreInvalid(valid, invalid, own), FromString) followed by render and send; a boring reference (header → ordered list of (name, address)) is updated by the documented semantics and resynchronised from the getters after errors and *IgnoreInvalid; oracle: envelope sender/recipients in the reference server's commit, rendered address fields parsed back by the harness' own parser, Bcc-only addresses absent from every rendered byte; every sequence is run a second time with a caller that keeps the slices returned by GetTo/GetCc/GetBcc/GetFrom/GetAddrHeader before each operation and appends to them afterwards (the message must not change); distinct by operation sequence", nops))
 			r.Assume("after a call that returned an error, or an *IgnoreInvalid call, the reference is re-read from the getters (the property is silent about which entries survive)")
 			L := 3
 			if r.Thorough {
@@ -375,6 +401,24 @@ func init() {
 					fs := c06Exec(r, k)
 					r.Eval(vf.Hash(fmt.Sprint(ops)), l > 0)
 					r.TraceValidated()
+					if l > 0 {
+						// the same sequence with a caller that re-uses the slices the getters returned
+						k2 := c06Case{Ops: ops, Reuse: true}
+						fs2 := c06Exec(r, k2)
+						r.Eval(vf.Hash(fmt.Sprint(ops), "reuse"), true)
+						r.TraceValidated()
+						for _, f := range fs2 {
+							f := f
+							r.Violation(f.key+"/caller-reuses-getter-results", f.what, k2, func() string {
+								for _, x := range c06Exec(r, k2) {
+									if x.key == f.key {
+										return f.key + "/caller-reuses-getter-results"
+									}
+								}
+								return ""
+							})
+						}
+					}
 					// state space: prefix → prefix+op (bounded by hashing the last two operations)
 					st := vf.Hash("empty")
 					for j := 0; j < l; j++ {
